@@ -182,7 +182,7 @@ impl Property for C14 {
         match tier {
             Tier::Quick => Budget {
                 seconds: 25,
-                max_cases: 12_000,
+                max_cases: 60_000,
             },
             Tier::Thorough => Budget {
                 seconds: 600,
@@ -304,6 +304,19 @@ impl Property for C14 {
                 .collect();
             case.endless = None;
             case.set("as_dir", 1);
+            if rng.chance(2, 3) {
+                case.set("layout", *rng.pick(&[1i64, 2, 3, 3, 4]));
+                case.dirs = (0..2)
+                    .map(|_| {
+                        let mut order: Vec<usize> = (0..n).collect();
+                        rng.shuffle(&mut order);
+                        DirPlan {
+                            order,
+                            ..DirPlan::default()
+                        }
+                    })
+                    .collect();
+            }
             return case;
         }
         if on_files {
@@ -943,7 +956,18 @@ fn check_dir(case: &Case, ctx: &mut Ctx) -> Option<Violation> {
         ctx.harness_error = Some(format!("cannot create {dir}"));
         return None;
     }
-    let paths: Vec<String> = (0..n).map(|i| format!("{dir}/part{i}.json")).collect();
+    // layout 0: one flat directory listed by the file system; otherwise (hook H3) the files
+    // are spread over directories - flat, a file then a directory, a sub-directory, two
+    // directories - whose listings the simulator owns, in a seeded order. Every file is the
+    // same endless stream, so whichever jawk reads first reaches the limit.
+    let lay = if case.param("layout") > 0 { Some(lay_out(&dir, n, case.param("layout"), 0)) } else { None };
+    let paths: Vec<String> = match &lay {
+        Some(l) => l.paths.clone(),
+        None => (0..n).map(|i| format!("{dir}/part{i}.json")).collect(),
+    };
+    if lay.is_some() {
+        ctx.stats.probe("endless files in directories listed by the simulator (flat, nested, several)");
+    }
     let m = (2 * (skip + take) + 6) as usize;
     let finite = |k: usize| {
         let mut v = prefix.clone();
@@ -986,7 +1010,10 @@ fn check_dir(case: &Case, ctx: &mut Ctx) -> Option<Violation> {
         // swallowing the rows of identical later files) nothing forbids opening the next one
         let d = delivered_when_out_reached(&l1.obs.events, l1.obs.stdout.len()).unwrap_or(prefix.len());
         let datas: Vec<Vec<u8>> = (0..n).map(|_| prefix.clone()).collect();
-        let mut spec = sim_dir_spec(case, &dir, &paths, &datas, &case.files);
+        let mut spec = match &lay {
+            Some(l) => sim_layout_spec(case, l, &datas, &case.files, &case.dirs),
+            None => sim_dir_spec(case, &dir, &paths, &datas, &case.files),
+        };
         for f in spec.files.iter_mut() {
             f.byte_budget = prefix.len().max(d) + BUDGET_EXTRA;
         }
